@@ -279,6 +279,13 @@ func Monitors(h History, tr *Trace) []Failure {
 		}
 		if bt.Comet != "ok" {
 			add("C04", "C04/comet-refuses-updates:"+bt.Comet, ht, "updates %v", bt.Updates)
+			// C03: the power a successful SetPower / RemoveValidator of this block assigned never reaches the validator set
+			for _, op := range successfulOps(bt) {
+				if op.Kind == "setpower" || op.Kind == "remove" {
+					add("C03", "C03/successful-operation-not-reflected-in-next-set:comet-refuses:"+bt.Comet, ht, "%s validator %d; updates %v", op.Kind, op.Val, bt.Updates)
+					break
+				}
+			}
 			if opOnNonBonded {
 				add("C13", "C13/comet-refusal-after-admin-op-on-non-bonded-validator:"+bt.Comet, ht, "")
 			}
@@ -317,8 +324,39 @@ func Monitors(h History, tr *Trace) []Failure {
 				jailChanged[id] = true
 			}
 		}
+		// double-sign evidence delivered with the block: x/evidence slashes these validators (and jails them, if they are not jailed yet)
+		punished := map[int]bool{}
+		for _, e := range bt.Spec.Evidence {
+			if vid, ok := consOwner(prev)[e.Cons]; ok {
+				punished[vid] = true
+			}
+		}
 		capInPlay := prev.MaxVals != s.MaxVals || capBinding(prev) || capBinding(s)
 		owner := consOwner(s)
+		// C13 (e): a double signer ends the block jailed (unless the evidence is one x/evidence ignores: unbonded validator,
+		// entry outside the evidence window, validator already tombstoned)
+		for _, e := range bt.Spec.Evidence {
+			vid, ok := consOwner(prev)[e.Cons]
+			if !ok {
+				continue
+			}
+			pv, v := prev.Vals[vid], s.Vals[vid]
+			if pv == nil || v == nil || pv.Status == 1 {
+				continue
+			}
+			if g := prev.Sign[e.Cons]; g != nil && g.Tomb {
+				continue
+			}
+			stale := s.Now-e.Time > evMaxAgeSecs && int64(ht)-e.Height > evMaxAgeBlocks
+			if !stale && !v.Jailed {
+				add("C13", "C13/double-signer-not-jailed", ht, "validator %d (cons key %d) evidence height %d power %d", vid, e.Cons, e.Height, e.Power)
+			}
+			if !stale && bigOf(v.Tokens).Cmp(bigOf(pv.Tokens)) > 0 {
+				if _, targeted := lastOp[vid]; !targeted {
+					add("C13", "C13/double-signer-gained-tokens", ht, "validator %d tokens %s -> %s", vid, pv.Tokens, v.Tokens)
+				}
+			}
+		}
 		// C14: a request that would not change the validator's voting power is rejected (judged on the first PoA
 		// operation aimed at the validator in the block, against the power it held when the block began)
 		{
@@ -406,7 +444,7 @@ func Monitors(h History, tr *Trace) []Failure {
 				}
 			}
 			_, targeted := lastOp[vid]
-			if !targeted && !jailChanged[vid] && !capInPlay {
+			if !targeted && !jailChanged[vid] && !punished[vid] && !capInPlay {
 				add("C03", "C03/update-for-non-target:"+valClass(prev, vid), ht, "validator %d update power %d; targets %v", vid, u[1], keysOf(lastOp))
 			}
 		}
@@ -416,7 +454,7 @@ func Monitors(h History, tr *Trace) []Failure {
 			if !ok {
 				continue
 			}
-			if _, targeted := lastOp[id]; targeted || jailChanged[id] || capInPlay {
+			if _, targeted := lastOp[id]; targeted || jailChanged[id] || punished[id] || capInPlay {
 				continue
 			}
 			if v.Jailed && pv.Jailed && v.Status != pv.Status {
@@ -450,7 +488,7 @@ func Monitors(h History, tr *Trace) []Failure {
 			if v, ok := s.Vals[vid]; ok {
 				nowJailed = v.Jailed
 			}
-			if !targeted && !jailChanged[vid] && !nowJailed && !capInPlay {
+			if !targeted && !jailChanged[vid] && !punished[vid] && !nowJailed && !capInPlay {
 				add("C13", "C13/power-decreased-without-cause:"+valClass(prev, vid), ht, "validator %d %d->%d", vid, pp, np)
 			}
 		}
@@ -698,10 +736,10 @@ func Monitors(h History, tr *Trace) []Failure {
 				onlyQueueOps = false
 			}
 		}
-		if onlyQueueOps && len(bt.Updates) > 0 && len(jailChanged) == 0 {
+		if onlyQueueOps && len(bt.Updates) > 0 && len(jailChanged) == 0 && len(punished) == 0 {
 			add("C10", "C10/queue-operation-changed-validator-set", ht, "updates %v", bt.Updates)
 		}
-		if onlyQueueOps && s.Supply != prev.Supply && len(jailChanged) == 0 {
+		if onlyQueueOps && s.Supply != prev.Supply && len(jailChanged) == 0 && len(punished) == 0 {
 			add("C10", "C10/queue-operation-changed-supply", ht, "%s -> %s", prev.Supply, s.Supply)
 		}
 
